@@ -307,11 +307,9 @@ class Eups:
         # N.b. we'll do the same for user directories (e.g. ~/.eups) later
         #
         self.versions = {}
-        neededFlavors = utils.Flavor().getFallbackFlavors(self.flavor, True)
-        if readCache:
-          for p in self.path:
-              self._setProductStack_fromCache(p, neededFlavors)
         #
+        # install the configured fallback flavors first: the cache has to hold every flavor that
+        # this instance will ask it about
         #
         fallbackList = hooks.config.Eups.fallbackFlavors
         if not isinstance(fallbackList, dict):
@@ -320,6 +318,11 @@ class Eups:
             if utils.is_string(fbl):
                 fbl = fbl.split()
             utils.Flavor().setFallbackFlavors(flavor, fbl)
+
+        neededFlavors = utils.Flavor().getFallbackFlavors(self.flavor, True)
+        if readCache:
+          for p in self.path:
+              self._setProductStack_fromCache(p, neededFlavors)
         #
         # load up the recognized tags.
         #
